@@ -494,6 +494,15 @@ class SymBody:
                 out.extend(self.branch(t.body if val else t.orelse, q,
                                        depth + 1))
             return out
+        # the same test evaluated again with nothing having happened in
+        # between has the same outcome
+        key = ast.unparse(t)
+        for i in range(len(p.conds) - 1, -1, -1):
+            (t0, v0) = p.conds[i]
+            if p.conds.at[i] != len(p.events):
+                break
+            if ast.unparse(t0) == key:
+                return [(p, v0)]
         q1, q2 = p, p.clone()
         q1.conds.append((t, True))
         q2.conds.append((t, False))
